@@ -1,9 +1,70 @@
-(* Props/C04.v — placeholder until the proofs land *)
+(* Props/C04.v — theorems of property C04 (statements only; proofs in coq/Proofs/MapStream*.v).
+   Model: coq/Model/MapStream.v (version Fixed = /repo after work/C04/fix-*.diff, Orig = as found).
+   Spec:  coq/Spec/MapStreamSpec.v. *)
 From Coq Require Import ZArith List.
-From EV Require Import Res Arr MapStream MapStreamSpec.
+From EV Require Import Res Arr MapStream MapStreamSpec MapStreamBase MapStreamFixed MapStreamRefuted.
 Import ListNotations.
 Open Scope Z_scope.
 
-Theorem c04_smoke : ordered_map_valid_stream 0 0 10 Fixed [10;20;30] [0;2147483647;2] 2147483647 2 = Ok [10;0;30].
-Proof. vm_compute. reflexivity. Qed.
-Print Assumptions c04_smoke.
+(* ---- streaming, fixed-width element types (numeric, bool, fixed string): FULL ----------------
+   For every element type, every invalid marker, every chunk size >= 1, every source and every
+   map whose valid entries are in range and non-decreasing: the repaired driver terminates with
+   any fuel >= |map|+1 and yields exactly map_spec (length |map|, row r = data[map[r]] or empty). *)
+Theorem map_stream_correct :
+  forall (A:Type) (zfill empty:A) (data:list A) (inv:Z) (m:list Z) (cs:Z) (fuel:nat),
+    1 <= cs -> valid_map (len data) inv m -> (fuel >= length m + 1)%nat ->
+    ordered_map_valid_stream zfill empty fuel Fixed data m inv cs = Ok (map_spec empty data inv m).
+Proof. exact @map_stream_correct_gen. Qed.
+Print Assumptions map_stream_correct.
+
+Example map_stream_correct_hyps :
+  valid_mapb 6 INVALID_INDEX_32 [INVALID_INDEX_32; 0; 2; 2; INVALID_INDEX_32; 5; INVALID_INDEX_32] = true.
+Proof. reflexivity. Qed.
+
+(* ---- the code as found: REFUTED (each witness is replayed on the real code, corpus/C04) ------ *)
+Theorem map_stream_sentinel_refuted :   (* F-C04a *)
+  exists data m inv cs, valid_mapb (len data) inv m = true /\ 1 <= cs /\
+    ordered_map_valid_stream 0 0 (length m + 8) Orig data m inv cs <> Ok (map_spec 0 data inv m).
+Proof.
+  exists [10;20;30;40;50;60], [0; S32], S32, 4.
+  destruct stream_sentinel_witness as [H1 [H2 H3]]. split; [exact H1|]. split; [reflexivity|].
+  cbn [length Nat.add]. rewrite H2, H3. discriminate.
+Qed.
+Print Assumptions map_stream_sentinel_refuted.
+
+Theorem map_stream_fixedstring_refuted :   (* F-C04c: marker -1, fixed-string column *)
+  exists data m cs, valid_mapb (len data) (-1) m = true /\ 1 <= cs /\
+    ordered_map_valid_stream [48] [] (length m + 8) Orig data m (-1) cs <> Ok (map_spec [] data (-1) m).
+Proof.
+  exists [[97];[98;98]], [-1; -1], 4.
+  destruct stream_fixedstring_witness as [H2 H3]. split; [reflexivity|]. split; [reflexivity|].
+  cbn [length Nat.add]. rewrite H2, H3. discriminate.
+Qed.
+Print Assumptions map_stream_fixedstring_refuted.
+
+Theorem indexed_sentinel_refuted :   (* F-C04b *)
+  exists di dv m inv cs vf, valid_mapb (len di - 1) inv m = true /\
+    ordered_map_valid_indexed_stream 20 Orig di dv m inv cs vf = Raise E_IndexError.
+Proof.
+  exists [0;1;3;6], [97;98;98;99;99;99], [0; S32], S32, 4, 4.
+  split; [reflexivity|]. exact (proj1 indexed_sentinel_witness).
+Qed.
+Print Assumptions indexed_sentinel_refuted.
+
+Theorem indexed_entry_too_long_spins :   (* F-C12b: no fuel lets the original driver finish *)
+  exists di dv m inv cs vf, valid_mapb (len di - 1) inv m = true /\
+    forall fuel, ordered_map_valid_indexed_stream fuel Orig di dv m inv cs vf = OutOfFuel.
+Proof.
+  exists spin_idx, spin_val, [3], (-1), 1, 1. split; [reflexivity|]. exact indexed_spin_all_fuel.
+Qed.
+Print Assumptions indexed_entry_too_long_spins.
+
+Theorem indexed_entry_too_long_raises_after_fix :
+  ordered_map_valid_indexed_stream 20 Fixed spin_idx spin_val [3] (-1) 1 1 = Raise E_ValueError.
+Proof. exact indexed_too_long_raises. Qed.
+Print Assumptions indexed_entry_too_long_raises_after_fix.
+
+Theorem safe_map_values_empty_refuted :   (* F-C04d *)
+  safe_map_values 0 Orig [10;20] [] [] None = OOB 200.
+Proof. exact (proj1 safe_map_values_empty_witness). Qed.
+Print Assumptions safe_map_values_empty_refuted.
